@@ -80,6 +80,9 @@ class LinSpec:
         L += ["!transition-equations"]
         for i, e in enumerate(self.eqs):
             sh = (" + " + self.shk(i)) if e.get("shock", True) else ""
+            # time-shifted shocks: (index of the shock, shift, loading)
+            for (i2, s2, cf) in e.get("lagshocks", ()):
+                sh += " + %r*%s[%+d]" % (float(cf), self.shk(i2), s2)
             if self.log:
                 rhs = " + ".join(["c_%d_%d*log(%s)" % (i, k, ref(j, s)) for k, (j, s, _) in enumerate(e["terms"])] + ["k_%d" % i]) + sh
                 L.append("    log(%s) = %s;" % (self.var(i), rhs))
@@ -189,6 +192,8 @@ class LinSpec:
                 r += e.get("const", 0.0)
             if e.get("shock", True):
                 r += get(self.shk(i), t) + get("ant_" + self.shk(i), t)
+            for (i2, s2, cf) in e.get("lagshocks", ()):
+                r += cf * (get(self.shk(i2), t + s2) + get("ant_" + self.shk(i2), t + s2))
             out.append(r)
         for m, e in enumerate(self.meas):
             r = -get(self.obs(m), t)
@@ -215,7 +220,8 @@ class LinSpec:
 
     @classmethod
     def from_json(cls, d):
-        fix = lambda es: [dict(e, terms=[tuple(t) for t in e["terms"]], **({"xshocks": [tuple(x) for x in e["xshocks"]]} if "xshocks" in e else {})) for e in es]
+        fix = lambda es: [dict(e, terms=[tuple(t) for t in e["terms"]], **({"xshocks": [tuple(x) for x in e["xshocks"]]} if "xshocks" in e else {}),
+                                **({"lagshocks": [tuple(x) for x in e["lagshocks"]]} if "lagshocks" in e else {})) for e in es]
         return cls(d["n"], fix(d["eqs"]), fix(d["meas"]), d["log"], d.get("name", ""), d.get("flat", True))
 
 
@@ -357,3 +363,18 @@ def unit_root_declared_last_specs():
         LinSpec(3, [ar2, mid, rw3], [dict(terms=[(2, 0, 1.0)], const=0.0, shock=True), dict(terms=[(0, 0, 1.0), (1, 0, 0.5)], const=0.0, shock=False),
                                       dict(terms=[(1, 0, 1.0), (2, 0, 1.0), (2, -1, -1.0)], const=0.0, shock=True)], False, "ur_last_three"),
     ]
+
+
+def lagged_shock_specs():
+    """transition equations that contain a shock with a time shift (a moving-average error term)"""
+    out = []
+    for base in (make_spec(1, (1,), (0,), 0, "backward", meas="one"), make_spec(2, (1, 1), (0, 1), -1, "saddle", meas="one"),
+                 make_spec(2, (1, 0), (0, 0), 0, "backward", meas="none")):
+        d = base.to_json()
+        d["eqs"][0]["lagshocks"] = [(0, -1, 0.5)]
+        if base.n > 1:
+            d["eqs"][1]["lagshocks"] = [(0, -1, -0.3)]
+        sp = LinSpec.from_json(d)
+        sp.name = base.name + "_lagshock"
+        out.append(sp)
+    return out
